@@ -124,8 +124,11 @@ func (v *Validator) typeOfValue(val types.Value) (cedarType, error) {
 	case types.String:
 		return typeString{}, nil
 	case types.EntityUID:
+		return v.typeOfEntityUID(val)
 	}
-	return v.typeOfEntityUID(val.(types.EntityUID))
+	// Policies decoded from JSON may carry set, record or extension values as
+	// literals; they have no literal type here, which is an error, not a panic.
+	return nil, fmt.Errorf("unexpected literal value of type %T", val)
 }
 
 func (v *Validator) typeOfEntityUID(uid types.EntityUID) (cedarType, error) {
